@@ -118,15 +118,18 @@ class CuboidCells(Cells):
                 # int() truncates towards 0.0. Instead we can simply use the 0.0 lower position.
                 if lower_position > 0.0:
                     # Find the smallest lower position that is still within the cell by slowly decreasing the position.
-                    while int(lower_position / self._cell_side_lengths[index]) == cell_identifier_list[index]:
+                    while self._cell_identifier(lower_position, index) == cell_identifier_list[index]:
                         lower_position = _next_float_down(lower_position)
-                    while int(lower_position / self._cell_side_lengths[index]) < cell_identifier_list[index]:
+                    while self._cell_identifier(lower_position, index) < cell_identifier_list[index]:
                         lower_position = _next_float_up(lower_position)
                 cell_min.append(lower_position)
-                # Find the greatest upper position that is still within the cell by slowly increasing the position.
-                while int(upper_position / self._cell_side_lengths[index]) == cell_identifier_list[index]:
+                # Find the greatest upper position that is still within the cell by slowly increasing the position. The
+                # last cell ends at the greatest position that is still within the simulation box.
+                while (upper_position < setting.system_lengths[index]
+                       and self._cell_identifier(upper_position, index) == cell_identifier_list[index]):
                     upper_position = _next_float_up(upper_position)
-                while int(upper_position / self._cell_side_lengths[index]) > cell_identifier_list[index]:
+                while (upper_position >= setting.system_lengths[index]
+                       or self._cell_identifier(upper_position, index) > cell_identifier_list[index]):
                     upper_position = _next_float_down(upper_position)
                 cell_max.append(upper_position)
             self._cells.append(Cell(tuple(cell_identifier_list), tuple(cell_min), tuple(cell_max)))
@@ -178,6 +181,27 @@ class CuboidCells(Cells):
                 cell_identifier[index] * self._cumulative_product[index] for index in range(setting.dimension))
             yield self._cells[cell_index]
 
+    def _cell_identifier(self, position_entry: float, index: int) -> int:
+        """
+        Return the identifier along the given direction of the cell that contains the given entry of a position.
+
+        The quotient of a position entry just below the system length and the cell side length can be rounded up to the
+        number of cells per side. Such an entry still belongs to the last cell.
+
+        Parameters
+        ----------
+        position_entry : float
+            The entry of the position along the given direction.
+        index : int
+            The direction.
+
+        Returns
+        -------
+        int
+            The cell identifier along the given direction.
+        """
+        return min(int(position_entry / self._cell_side_lengths[index]), self._cells_per_side[index] - 1)
+
     def yield_cells(self) -> Iterable[Cell]:
         """
         Generate all cells of the cell system.
@@ -209,7 +233,7 @@ class CuboidCells(Cells):
             If the given position lies outside of the simulation box.
         """
         assert all(0.0 <= position[index] <= setting.system_lengths[index] for index in range(setting.dimension))
-        return self._cells[sum(int(position[index] / self._cell_side_lengths[index]) * self._cumulative_product[index]
+        return self._cells[sum(self._cell_identifier(position[index], index) * self._cumulative_product[index]
                                for index in range(setting.dimension))]
 
     def nearby_cells(self, cell: Cell) -> Set[Cell]:
